@@ -78,6 +78,7 @@ def run(run):
 
     def flips(sub):
         ev16 = _sym.make_evaluator(sub.project, "toasty.image", [], inline_local=True)
+        ev16.unroll = True          # as in C16 itself: loops over literal keyword tuples are evaluated keyword by keyword
         c16._r1(sub, ev16)
         c16._r2(sub)
     common.delegate(run, "C09.R2", "C16", flips, only_rules={"C16.R1", "C16.R2"}, note="premise: a flipped input keeps its sky position")
